@@ -11,7 +11,7 @@ EXTENDS Registry, Json
 CONSTANTS N,             \* number of nodes (2..5)
           Place          \* "all": include in body / block / component body; "body": body only
 PrefixesDef == <<"p/">>
-AllNames == <<"A", "B", "C", "p/D", "E">>         \* D is only reachable as `D` through the prefix
+AllNames == <<"A", "p/D", "B", "C", "E">>         \* D is only reachable as `D` through the prefix (among the first three: part of every run)
 Nodes == {AllNames[i] : i \in 1..N}
 Written(n) == IF n = "p/D" THEN "D" ELSE n          \* how other templates write the name
 Targets == {Written(n) : n \in Nodes} \cup {"", "X"}       \* X never exists
